@@ -717,13 +717,6 @@ class TimeExceeded (icmp_base):
     if raw is not None: self.parse(raw)
     self._init(kw)
 
-  def _fields (self):
-    f = ['mtu']
-    r = {}
-    for ff in f:
-      r[ff] = getattr(self, ff)
-    return r
-
   @classmethod
   def unpack_new (cls, raw, offset = 0, buf_len = None, prev = None):
     o = cls()
@@ -738,7 +731,7 @@ class TimeExceeded (icmp_base):
       offset = buf_len
 
       o.parsed = True
-    except TruncatedException:
+    except Exception:
       pass
 
     o.raw = raw[_offset:offset]
@@ -747,6 +740,9 @@ class TimeExceeded (icmp_base):
 
   def hdr (self, payload):
     return struct.pack('!I', 0) # Unused
+
+  def pack (self):
+    return packet_base.pack(self)
 
 
 class PacketTooBig (icmp_base):
@@ -777,14 +773,14 @@ class PacketTooBig (icmp_base):
     if buf_len is None: buf_len = len(raw)
 
     try:
-      o.mtu = struct.unpack_from("!I", raw, offset)
+      o.mtu = struct.unpack_from("!I", raw, offset)[0]
       offset += 4
 
       o.next = raw[offset:buf_len]
       offset = buf_len
 
       o.parsed = True
-    except TruncatedException:
+    except Exception:
       pass
 
     o.raw = raw[_offset:offset]
@@ -793,6 +789,9 @@ class PacketTooBig (icmp_base):
 
   def hdr (self, payload):
     return struct.pack('!I', self.mtu)
+
+  def pack (self):
+    return packet_base.pack(self)
 
 
 class unpack_new_adapter (object):
